@@ -79,6 +79,9 @@ NoEntry    == [keyed |-> FALSE, authed |-> FALSE, exp |-> -1]
 IdVariants == {"exact", "oneoff", "unknown"}
 Proofs     == {"key", "wrongkey", "nokey"}
 Froms      == {"same", "other"}
+\* a request from the original address is always honoured; from another address the
+\* statement leaves it open (right key) - both outcomes are behaviours of the model
+FromHonour == {<<"same", TRUE>>, <<"other", TRUE>>, <<"other", FALSE>>}
 
 Init ==
   /\ now = 0
@@ -320,8 +323,8 @@ Next06 ==
     \/ Tick
     \/ \E s \in Sids : Renew(a, s) \/ SrvInvalidate(a, s)
     \/ SrvSweep(a)
-    \/ \E s \in Sids, idv \in IdVariants, p \in Proofs, w \in BOOLEAN, f \in Froms, h \in BOOLEAN :
-         Resume(a, s, idv, p, w, f, h)
+    \/ \E s \in Sids, idv \in IdVariants, p \in Proofs, w \in BOOLEAN, fh \in FromHonour :
+         Resume(a, s, idv, p, w, fh[1], fh[2])
     \/ \E i \in 1..MaxRec, d \in {"c2s", "s2c"}, cut \in Cuts : Replay(a, i, d, cut)
 
 Next07 ==
@@ -335,6 +338,20 @@ Spec06 == Init /\ [][Next06]_vars
 Spec07 == Init /\ [][Next07]_vars
 
 -----------------------------------------------------------------------------
+(* An attacking connection (no key, wrong id, foreign address, replay) changes the
+   caches only in ways a legitimate step also can (lease renewal = legitimate
+   Resume, removal of an expired entry = SrvSweep), so exhaustive runs need not
+   explore beyond it: CONSTRAINT LegitOnly makes such states leaves (TLC still
+   checks the invariants on them).                                            *)
+LegitOnly ==
+  /\ last.act # "Replay"
+  /\ last.act = "Resume" => (last.proof = "key" /\ last.idv = "exact" /\ last.from = "same")
+
+\* VIEW for exhaustive runs: the observation matters to the invariants only when
+\* the last step was a connection / a handshake
+core == <<now, srv, cli, mayReuse, nextSid, brk, dead, gone, recs>>
+McView == <<core, IF last.act \in {"Resume", "Replay", "Handshake"} THEN last ELSE [act |-> "-"]>>
+
 (* C06 invariants: predicates over the observation of the last connection *)
 IsConn == last.act \in {"Resume", "Replay"}
 
